@@ -422,6 +422,14 @@ class CSSImportRule(cssrule.CSSRule):
                 if 'name' == typ:
                     self._seq[i] = (name, typ, item.line, item.col)
                     break
+            else:
+                if name is not None:
+                    # the rule was read without a name: it follows href and
+                    # media
+                    readonly = self.seq._readonly
+                    self.seq._readonly = False
+                    self.seq.append(name, 'name', None, None)
+                    self.seq._readonly = readonly
 
             # set title of imported sheet
             if self.styleSheet:
